@@ -353,6 +353,18 @@ def run_b(case, ctx):
       ctx.violation(dict(sig, kind="printed_text_builds_other_object"), "%r -> %s" % (s, type(q2).__name__), {"text": s})
       return
     res = qcompare.compare(q, q2, qenv.call, qenv.as_np, case["seed"])
+    if res["kind"] is None and (cls.startswith("stochastic_") or cls == "bernoulli" or getattr(q, "use_stochastic_rounding", False)):
+      # "the same function" includes the training phase of the stochastic classes: same (constant) draw for both
+      K.set_learning_phase(1)
+      try:
+        stream.set_const(0.37)
+        res_t = qcompare.compare(q, q2, qenv.call, qenv.as_np, case["seed"])
+      finally:
+        K.set_learning_phase(0)
+        stream.set_grid(23, 64)
+      ctx.count("B.training_phase_compared")
+      if res_t["kind"] is not None:
+        res = dict(res_t, detail="training phase, every draw 0.37: " + str(res_t.get("detail")))
     lost = [o for o in qcompare.differing_options(q, q2)]
     func = [o for o in lost if o not in NONFUNCTIONAL]
     if res["kind"] is None:
